@@ -82,8 +82,9 @@ def dump_all(sim: Any, user: str = 'alice', password: bytes = b'pwalice',
     if append_probe:
         out['append_probe'] = {}
         for name in list(out['mailboxes']):
-            r = c.cmd(b'd APPEND ' + name + b' {26+}\r\nX-Vid: probe\r\n\r\n'
-                      b'probe\r\n\r\n')
+            pm = b'X-Vid: probe\r\n\r\nprobe\r\n'
+            r = c.cmd(b'd APPEND ' + name + b' {%d+}\r\n' % len(pm) + pm
+                      + b'\r\n')
             m = re.search(rb'APPENDUID (\d+) (\d+)', r)
             out['append_probe'][name] = (int(m.group(1)), int(m.group(2))) \
                 if m else None
@@ -124,6 +125,7 @@ class History:
         self.mon = fsmon.FsMon(allowed_root=self.scratch, read_ok=('/',),
                                write_ok=(tempfile.gettempdir(),),
                                on_mutation=self._on_mutation,
+                               on_after=self._on_after,
                                fault_at=fault_at)
         self.mon.enabled = False
         self.mon.__enter__()
@@ -139,6 +141,21 @@ class History:
                            'inflight': self.inflight, 'op': op,
                            'path': os.path.relpath(path, self.base),
                            'k': self.op_index_in_command})
+
+    def _on_after(self, n: int, op: str, path: str) -> None:
+        """The store right after a mutating call returned: differs from the
+        image before the next call when data is still sitting in a Python
+        file buffer (e.g. a file renamed into place before it was flushed).
+        Only taken when it can differ: after rename/replace/link."""
+        if not self.take_snapshots or self.inflight is None or \
+                op not in ('rename', 'replace', 'link'):
+            return
+        dst = os.path.join(self.snapdir, 's%d' % len(self.snaps))
+        shutil.copytree(self.base, dst, symlinks=True)
+        self.snaps.append({'dir': dst, 'acked': self.acked,
+                           'inflight': self.inflight, 'op': 'after-' + op,
+                           'path': os.path.relpath(path, self.base),
+                           'k': self.op_index_in_command + 0.5})
 
     def connect(self, user: str = 'alice', pw: bytes = b'pwalice') -> Any:
         c = self.sim.connect()
